@@ -99,7 +99,9 @@ theorem momInv_tellPending (s : State α) (k : Nat) (h : MomInv s) : MomInv (tel
   unfold tellPending
   split
   · exact h
-  · exact h
+  · split
+    · exact h
+    · exact h
 
 theorem momInv_foldl_tellPending (pts : List Nat) (s : State α) (h : MomInv s) :
     MomInv (pts.foldl tellPending s) := by
